@@ -170,8 +170,8 @@ Proof.
 Qed.
 
 (* Finite sweep over the 24 entry points and the shapes regenerated from the
-   source: every chain is covered by a recover and has no unguarded partial
-   operation — except the outer function of CEDecoder_DecodeDocument. *)
+   source: every chain is covered by a recover and no function on it has a
+   partial operation outside its recover. *)
 Definition ep_static_safe (e : entry_point) : bool :=
   match route_of e with
   | Direct outer f dv => chain_static_safe (outer ++ specific_chain (kind_of e) f dv)
@@ -181,45 +181,16 @@ Definition ep_static_safe (e : entry_point) : bool :=
       && chain_static_safe (specific_chain (kind_of e) FCte dv)
   end.
 
-Definition ep_inner_safe (e : entry_point) : bool :=
-  match route_of e with
-  | Direct outer f dv => chain_static_safe (outer ++ specific_chain (kind_of e) f dv)
-  | Universal outer unm dv =>
-      chain_static_safe (specific_chain (kind_of e) FCbe dv)
-      && chain_static_safe (specific_chain (kind_of e) FCte dv)
-  end.
-
-Lemma static_safe_sweep :
-  forallb (fun e => ep_eqb e CEDecoder_DecodeDocument || ep_static_safe e) all_entry_points = true.
-Proof. vm_compute. reflexivity. Qed.
-
-Lemma inner_safe_sweep : forallb ep_inner_safe all_entry_points = true.
+Lemma static_safe_sweep : forallb ep_static_safe all_entry_points = true.
 Proof. vm_compute. reflexivity. Qed.
 
 Lemma all_entry_points_complete e : In e all_entry_points.
 Proof. destruct e; simpl; tauto. Qed.
 
-Lemma ep_eqb_eq a b : ep_eqb a b = true -> a = b.
-Proof. destruct a, b; simpl; intro H; try reflexivity; discriminate. Qed.
-
-Lemma ep_static_safe_all e : e <> CEDecoder_DecodeDocument -> ep_static_safe e = true.
+Lemma ep_static_safe_all e : ep_static_safe e = true.
 Proof.
-  intro Hne. pose proof static_safe_sweep as H. rewrite forallb_forall in H.
-  specialize (H e (all_entry_points_complete e)). apply orb_true_iff in H as [H|H]; [|exact H].
-  apply ep_eqb_eq in H. contradiction.
+  pose proof static_safe_sweep as H. rewrite forallb_forall in H. apply H, all_entry_points_complete.
 Qed.
-
-Lemma ep_inner_safe_all e : ep_inner_safe e = true.
-Proof.
-  pose proof inner_safe_sweep as H. rewrite forallb_forall in H. apply H, all_entry_points_complete.
-Qed.
-
-(* The outer function of the universal DecodeDocument: exactly one unguarded
-   operation, document[0]. *)
-Lemma decode_document_outer_shape :
-  fn_unguarded (shape_of "ce.UniversalDecoder.DecodeDocument") = [OpIndexParam 0]
-  /\ fn_recover (shape_of "ce.UniversalDecoder.DecodeDocument") = false.
-Proof. vm_compute. split; reflexivity. Qed.
 
 Section RunChain.
   Context {R : Type}.
@@ -236,38 +207,16 @@ Section RunChain.
       apply chain_safe_no_panic, chain_static_safe_safe; assumption.
   Qed.
 
-  (* No entry point other than the universal DecodeDocument lets a panic escape,
-     whatever its innermost body does. *)
+  (* No entry point lets a panic escape, whatever its innermost body does. *)
   Lemma run_chain_no_panic e head len (inner : fmt -> outcome R) :
-    e <> CEDecoder_DecodeDocument -> run_chain e head len inner <> Panic.
+    run_chain e head len inner <> Panic.
   Proof.
-    intro Hne. pose proof (ep_static_safe_all e Hne) as Hs.
+    pose proof (ep_static_safe_all e) as Hs.
     unfold run_chain, ep_static_safe in *. destruct (route_of e) as [outer f dv | outer unm dv].
     - apply chain_safe_no_panic, chain_static_safe_safe, Hs.
     - apply andb_true_iff in Hs as [Hs Ht]. apply andb_true_iff in Hs as [Hq Hb].
       apply wrap_no_panic; [apply static_quiet_quiet, Hq|]. right.
       apply universal_body_no_panic; assumption.
-  Qed.
-
-  (* The universal DecodeDocument does not either on a non-empty document. *)
-  Lemma run_chain_decode_document_no_panic head len (inner : fmt -> outcome R) :
-    len <> 0 -> run_chain CEDecoder_DecodeDocument head len inner <> Panic.
-  Proof.
-    intro Hlen. pose proof (ep_inner_safe_all CEDecoder_DecodeDocument) as Hs.
-    unfold run_chain, ep_inner_safe in *. cbn [route_of] in *.
-    apply andb_true_iff in Hs as [Hb Ht].
-    apply wrap_no_panic.
-    - unfold quiet. destruct decode_document_outer_shape as [-> _]. simpl.
-      destruct (N.leb_spec len 0); [lia | reflexivity].
-    - right. apply universal_body_no_panic; assumption.
-  Qed.
-
-  (* On the empty document it panics, whatever the rest does. *)
-  Lemma run_chain_decode_document_empty head (inner : fmt -> outcome R) :
-    run_chain CEDecoder_DecodeDocument head 0 inner = Panic.
-  Proof.
-    unfold run_chain. cbn [route_of]. unfold wrap.
-    destruct decode_document_outer_shape as [-> _]. reflexivity.
   Qed.
 
   Lemma run_chain_hang e head len (inner : fmt -> outcome R) :
@@ -300,19 +249,31 @@ Definition no_placeholder (c : cache) : Prop := forall t, cache_find c t <> Some
 Lemma no_placeholder_nil : no_placeholder [].
 Proof. intros t. discriminate. Qed.
 
-Lemma cache_get_supported c t :
+(* No lookup stores a placeholder, and without a stored placeholder no lookup waits. *)
+Lemma cache_get_keeps c t sup :
   no_placeholder c ->
-  no_placeholder (fst (cache_get c t true)) /\ snd (cache_get c t true) = Found.
+  no_placeholder (fst (cache_get c t sup)) /\ snd (cache_get c t sup) <> Waits.
 Proof.
   intro Hc. unfold cache_get. destruct (cache_find c t) as [[|]|] eqn:E.
-  - split; [exact Hc | reflexivity].
+  - split; [exact Hc | discriminate].
   - exfalso. exact (Hc t E).
-  - split; [|reflexivity]. intros t'. simpl. destruct (N.eqb t' t); [discriminate | apply Hc].
+  - destruct sup; simpl; (split; [|discriminate]); [|exact Hc].
+    intros t'. simpl. destruct (N.eqb t' t); [discriminate | apply Hc].
 Qed.
 
-Lemma cache_get_fresh t sup :
-  snd (cache_get [] t sup) <> Waits.
-Proof. unfold cache_get. simpl. destruct sup; discriminate. Qed.
+(* A failed build leaves the cache as it was ... *)
+Lemma cache_get_unsupported_unchanged c t :
+  cache_find c t = None -> cache_get c t false = (c, BuildPanics).
+Proof. intro E. unfold cache_get. rewrite E. reflexivity. Qed.
+
+(* ... whereas before commit d2cf257 the next lookup of the same type waited forever. *)
+Lemma old_cache_poisoned c t :
+  cache_find c t = None ->
+  snd (cache_get_old c t false) = BuildPanics /\
+  snd (cache_get_old (fst (cache_get_old c t false)) t false) = Waits.
+Proof.
+  intro E. unfold cache_get_old. rewrite E. simpl. rewrite N.eqb_refl. split; reflexivity.
+Qed.
 
 (* Unmarshal: with no placeholder waiting for the template type the call returns. *)
 Lemma unmarshal_body_not_hang c t sup obs :
@@ -327,12 +288,13 @@ Proof.
   - simpl. discriminate.
 Qed.
 
-Lemma unmarshal_body_cache c t obs :
-  no_placeholder c -> no_placeholder (fst (unmarshal_body c t true obs)).
+Lemma unmarshal_body_cache c t sup obs :
+  no_placeholder c -> no_placeholder (fst (unmarshal_body c t sup obs)).
 Proof.
   intro Hc. unfold unmarshal_body.
-  destruct (cache_get_supported c t Hc) as [Hn Hf].
-  destruct (cache_get c t true) as [c' l]. simpl in *. subst l.
+  destruct (cache_get_keeps c t sup Hc) as [Hn Hw].
+  destruct (cache_get c t sup) as [c' l]. simpl in *.
+  destruct l; try exact Hn; [|congruence].
   destruct (feed (d_trace obs) [FTop false]) as [st stop].
   destruct (d_fails obs || match stop with AllConsumed => false | _ => true end); simpl.
   - destruct (artificially_terminate st); exact Hn.
@@ -348,119 +310,84 @@ Proof.
 Qed.
 
 Lemma marshal_body_cache c v :
-  no_placeholder c -> v_supported v = true -> no_placeholder (fst (marshal_body c v)).
+  no_placeholder c -> no_placeholder (fst (marshal_body c v)).
 Proof.
-  intros Hc Hs. unfold marshal_body. rewrite Hs.
-  destruct (cache_get_supported c (v_type v) Hc) as [Hn Hf].
-  destruct (cache_get c (v_type v) true) as [c' l]. simpl in *. subst l. exact Hn.
+  intros Hc. unfold marshal_body.
+  destruct (cache_get_keeps c (v_type v) (v_supported v) Hc) as [Hn Hw].
+  destruct (cache_get c (v_type v) (v_supported v)) as [c' l]. simpl in *. destruct l; exact Hn.
 Qed.
 
 (* ------------------------------------------------------------------------- *)
 (** * Calls and sessions *)
 
-Lemma ep_eqb_refl e : ep_eqb e e = true.
-Proof. destruct e; reflexivity. Qed.
-
-Lemma run_call_no_panic e c cl :
-  call_nonempty_for e cl = true -> snd (run_call e c cl) <> Panic.
+Lemma run_call_no_panic e c cl : snd (run_call e c cl) <> Panic.
 Proof.
-  intro Hne. unfold run_call.
+  unfold run_call.
   destruct (kind_of e) eqn:K, cl as [head len fails | head len t sup obs | v]; simpl; try discriminate.
-  - (* unmarshal *)
-    assert (e <> CEDecoder_DecodeDocument) as Hd by (intro; subst; discriminate).
-    destruct (chain_of e head).
-    + destruct (unmarshal_body c t sup (obs _)) as [c' o]. simpl. apply run_chain_no_panic, Hd.
-    + simpl. apply run_chain_no_panic, Hd.
-  - (* decode *)
-    simpl in Hne. apply orb_true_iff in Hne as [Hne|Hne].
-    + apply run_chain_no_panic. intro; subst. rewrite ep_eqb_refl in Hne. discriminate.
-    + destruct (ep_eqb e CEDecoder_DecodeDocument) eqn:Ee.
-      * apply ep_eqb_eq in Ee. subst. apply run_chain_decode_document_no_panic.
-        apply negb_true_iff, N.eqb_neq in Hne. exact Hne.
-      * apply run_chain_no_panic. intro; subst. rewrite ep_eqb_refl in Ee. discriminate.
-  - (* marshal *)
-    assert (e <> CEDecoder_DecodeDocument) as Hd by (intro; subst; discriminate).
-    destruct (marshal_body c v) as [c' o]. simpl. apply run_chain_no_panic, Hd.
+  - destruct (chain_of e head).
+    + destruct (unmarshal_body c t sup (obs _)) as [c' o]. simpl. apply run_chain_no_panic.
+    + simpl. apply run_chain_no_panic.
+  - apply run_chain_no_panic.
+  - destruct (marshal_body c v) as [c' o]. simpl. apply run_chain_no_panic.
 Qed.
 
-(* A call returns when no placeholder is waiting for its type and the value is acyclic. *)
+(* A call returns when no placeholder is stored and the value is acyclic. *)
 Lemma run_call_not_hang e c cl :
-  call_acyclic cl = true ->
-  (match cl with
-   | CallDecode _ _ _ => True
-   | CallUnmarshal _ _ t sup _ => snd (cache_get c t sup) <> Waits
-   | CallMarshal v => snd (cache_get c (v_type v) (v_supported v)) <> Waits
-   end) ->
-  snd (run_call e c cl) <> Hang.
+  no_placeholder c -> call_acyclic cl = true -> snd (run_call e c cl) <> Hang.
 Proof.
-  intros Hac Hw. unfold run_call.
+  intros Hc Hac. unfold run_call.
   destruct (kind_of e) eqn:K, cl as [head len fails | head len t sup obs | v]; simpl; try discriminate.
   - destruct (chain_of e head).
     + pose proof (unmarshal_body_not_hang c t sup
                    (obs match route_of e with
                         | Direct _ f _ => f
                         | Universal _ _ _ => match head with [] => FNone | b :: _ => table_lookup unmarshaler_table b end
-                        end) Hw) as Hb.
+                        end) (proj2 (cache_get_keeps c t sup Hc))) as Hb.
       destruct (unmarshal_body c t sup _) as [c' o]. simpl in *.
       intro H. apply run_chain_hang in H as [f H]. congruence.
     + simpl. intro H. apply run_chain_hang in H as [f H]. discriminate.
   - intro H. apply run_chain_hang in H as [f H]. unfold decode_body in H. destruct (fails f); discriminate.
   - simpl in Hac. apply negb_true_iff in Hac.
-    pose proof (marshal_body_not_hang c v Hw Hac) as Hb.
+    pose proof (marshal_body_not_hang c v (proj2 (cache_get_keeps c _ _ Hc)) Hac) as Hb.
     destruct (marshal_body c v) as [c' o]. simpl in *.
     intro H. apply run_chain_hang in H as [f H]. congruence.
 Qed.
 
-Lemma run_call_cache e c cl :
-  no_placeholder c -> call_supported cl = true -> no_placeholder (fst (run_call e c cl)).
+Lemma run_call_cache e c cl : no_placeholder c -> no_placeholder (fst (run_call e c cl)).
 Proof.
-  intros Hc Hs. unfold run_call.
+  intros Hc. unfold run_call.
   destruct (kind_of e), cl as [head len fails | head len t sup obs | v]; simpl; try exact Hc.
-  - simpl in Hs. subst sup. destruct (chain_of e head); [|exact Hc].
-    pose proof (unmarshal_body_cache c t
+  - destruct (chain_of e head); [|exact Hc].
+    pose proof (unmarshal_body_cache c t sup
                  (obs match route_of e with
                       | Direct _ f _ => f
                       | Universal _ _ _ => match head with [] => FNone | b :: _ => table_lookup unmarshaler_table b end
                       end) Hc) as Hb.
-    destruct (unmarshal_body c t true _) as [c' o]. exact Hb.
-  - simpl in Hs. pose proof (marshal_body_cache c v Hc Hs) as Hb.
+    destruct (unmarshal_body c t sup _) as [c' o]. exact Hb.
+  - pose proof (marshal_body_cache c v Hc) as Hb.
     destruct (marshal_body c v) as [c' o]. exact Hb.
 Qed.
 
-Lemma no_placeholder_not_waits c t sup : no_placeholder c -> snd (cache_get c t sup) <> Waits.
-Proof.
-  intro Hc. unfold cache_get. destruct (cache_find c t) as [[|]|] eqn:E; simpl; try discriminate.
-  - exfalso. exact (Hc t E).
-  - destruct sup; discriminate.
-Qed.
-
+(* Every session of acyclic calls, on every entry point, with any mixture of
+   supported and unsupported types and any reuse of the object: every call returns
+   a result or an error. *)
 Lemma run_session_good e calls :
-  forall c, no_placeholder c -> benign e calls -> Forall good (run_session e c calls).
+  forall c, no_placeholder c -> benign calls -> Forall good (run_session e c calls).
 Proof.
-  induction calls as [|cl r IH]; intros c Hc [Hne [Hac Hsup]]; simpl; [constructor|].
-  simpl in Hne, Hac. apply andb_true_iff in Hne as [Hne1 Hne]. apply andb_true_iff in Hac as [Hac1 Hac].
+  induction calls as [|cl r IH]; intros c Hc Hac; simpl; [constructor|].
+  unfold benign in Hac. simpl in Hac. apply andb_true_iff in Hac as [Hac1 Hac].
   match goal with |- context [run_call e ?x cl] => set (c0 := x) end.
   assert (no_placeholder c0) as Hc0 by (unfold c0; destruct (fresh_per_call e); [apply no_placeholder_nil | exact Hc]).
-  pose proof (run_call_no_panic e c0 cl Hne1) as Hp.
-  assert (snd (run_call e c0 cl) <> Hang) as Hh.
-  { apply run_call_not_hang; [exact Hac1|]. destruct cl; try exact I; apply no_placeholder_not_waits, Hc0. }
-  destruct (run_call e c0 cl) as [c' o] eqn:Er. simpl in Hp, Hh.
+  pose proof (run_call_no_panic e c0 cl) as Hp.
+  pose proof (run_call_not_hang e c0 cl Hc0 Hac1) as Hh.
+  pose proof (run_call_cache e c0 cl Hc0) as Hcc.
+  destruct (run_call e c0 cl) as [c' o] eqn:Er. simpl in Hp, Hh, Hcc.
   assert (Forall good (o :: run_session e c' r)) as Hall.
-  { constructor; [split; assumption|].
-    destruct Hsup as [Hf|Hs].
-    - (* fresh object per call: the cache handed to the next call is irrelevant; use [] *)
-      assert (forall c1 c2, run_session e c1 r = run_session e c2 r) as Hirr.
-      { intros c1 c2. destruct r as [|cl2 r2]; [reflexivity|]. simpl. rewrite Hf. reflexivity. }
-      rewrite (Hirr c' []). apply IH; [apply no_placeholder_nil|].
-      split; [exact Hne | split; [exact Hac | left; exact Hf]].
-    - simpl in Hs. apply andb_true_iff in Hs as [Hs1 Hs].
-      apply IH.
-      + pose proof (run_call_cache e c0 cl Hc0 Hs1) as Hcc. rewrite Er in Hcc. exact Hcc.
-      + split; [exact Hne | split; [exact Hac | right; exact Hs]]. }
+  { constructor; [split; assumption|]. apply IH; [exact Hcc | exact Hac]. }
   destruct o; try exact Hall. exfalso. apply Hh. reflexivity.
 Qed.
 
-Lemma run_good e calls : benign e calls -> Forall good (run e calls).
+Lemma run_good e calls : benign calls -> Forall good (run e calls).
 Proof. apply run_session_good, no_placeholder_nil. Qed.
 
 (* ------------------------------------------------------------------------- *)
@@ -505,79 +432,26 @@ Qed.
 Lemma frag_decode_not_hang d : frag_decode d <> Hang.
 Proof. destruct (frag_decode_returns d) as [r E]. rewrite E. discriminate. Qed.
 
-Lemma frag_unmarshal_good e d o :
-  e <> CEDecoder_DecodeDocument -> frag_unmarshal e d = Some o -> good o.
+Lemma frag_unmarshal_good e d o : frag_unmarshal e d = Some o -> good o.
 Proof.
-  intros Hne. unfold frag_unmarshal. destruct (negb (reaches_cbe e d)); [discriminate|].
+  unfold frag_unmarshal. destruct (negb (reaches_cbe e d)); [discriminate|].
   destruct (frag_decode_returns d) as [[st failed|] E]; rewrite E; [|discriminate].
   intro H. injection H as <-. split.
-  - apply run_chain_no_panic, Hne.
+  - apply run_chain_no_panic.
   - intro H. apply run_chain_hang in H as [f H]. destruct failed; [|discriminate].
     destruct (artificially_terminate_returns st) as [st' [Et _]]. rewrite Et in H. discriminate.
 Qed.
 
 (* ------------------------------------------------------------------------- *)
-(** * Refutations of the unrestricted property *)
-
-Lemma empty_document_panics :
-  run CEDecoder_DecodeDocument [CallDecode [] 0 (fun _ => false)] = [Panic].
-Proof. vm_compute. reflexivity. Qed.
-
-Lemma marshaler_reuse_hangs :
-  run CBEMarshaler_Marshal [CallMarshal unsupported_value; CallMarshal unsupported_value] = [Err; Hang].
-Proof. vm_compute. reflexivity. Qed.
-
-Lemma unmarshaler_reuse_hangs :
-  run CBEUnmarshaler_Unmarshal
-      [CallUnmarshal [129] 3 7 false (fun _ => {| d_trace := [SVal]; d_fails := false |});
-       CallUnmarshal [129] 3 7 false (fun _ => {| d_trace := [SVal]; d_fails := false |})] = [Err; Hang].
-Proof. vm_compute. reflexivity. Qed.
-
-Lemma cyclic_value_hangs : run MarshalToCBEDocument [CallMarshal cyclic_value] = [Hang].
-Proof. vm_compute. reflexivity. Qed.
-
-(* Non-vacuity of [benign]: a session with a failing document inside an edge and
-   a one-shot marshal of an unsupported value. *)
-Lemma benign_example_1 :
-  benign CBEUnmarshaler_Unmarshal
-         [CallUnmarshal [129] 3 1 true (fun _ => {| d_trace := [SList; SEdge; SVal]; d_fails := true |});
-          CallUnmarshal [129] 3 1 true (fun _ => {| d_trace := [SNode]; d_fails := true |})].
-Proof. unfold benign. simpl. split; [reflexivity | split; [reflexivity | right; reflexivity]]. Qed.
-
-Lemma benign_example_2 : benign MarshalCBE [CallMarshal unsupported_value; CallMarshal unsupported_value].
-Proof. unfold benign. simpl. split; [reflexivity | split; [reflexivity | left; reflexivity]]. Qed.
-
-(* ------------------------------------------------------------------------- *)
-(** * The unrestricted property and its refutations *)
+(** * The unrestricted property and what still refutes it *)
 
 Definition full_property : Prop := forall e calls, Forall good (run e calls).
 
-Lemma not_good_panic : ~ good Panic.
-Proof. intros [H _]. apply H. reflexivity. Qed.
 Lemma not_good_hang : ~ good Hang.
 Proof. intros [_ H]. apply H. reflexivity. Qed.
 
-Lemma empty_document_refutes :
-  ~ Forall good (run CEDecoder_DecodeDocument [CallDecode [] 0 (fun _ => false)]).
-Proof.
-  rewrite empty_document_panics. intro H. inversion H as [|x l Hx _]. exact (not_good_panic Hx).
-Qed.
-
-Lemma marshaler_reuse_refutes :
-  ~ Forall good (run CBEMarshaler_Marshal [CallMarshal unsupported_value; CallMarshal unsupported_value]).
-Proof.
-  rewrite marshaler_reuse_hangs. intro H. inversion H as [|x l _ Hl]. inversion Hl as [|y l' Hy _].
-  exact (not_good_hang Hy).
-Qed.
-
-Lemma unmarshaler_reuse_refutes :
-  ~ Forall good (run CBEUnmarshaler_Unmarshal
-      [CallUnmarshal [129] 3 7 false (fun _ => {| d_trace := [SVal]; d_fails := false |});
-       CallUnmarshal [129] 3 7 false (fun _ => {| d_trace := [SVal]; d_fails := false |})]).
-Proof.
-  rewrite unmarshaler_reuse_hangs. intro H. inversion H as [|x l _ Hl]. inversion Hl as [|y l' Hy _].
-  exact (not_good_hang Hy).
-Qed.
+Lemma cyclic_value_hangs : run MarshalToCBEDocument [CallMarshal cyclic_value] = [Hang].
+Proof. vm_compute. reflexivity. Qed.
 
 Lemma cyclic_value_refutes : ~ Forall good (run MarshalToCBEDocument [CallMarshal cyclic_value]).
 Proof.
@@ -585,15 +459,23 @@ Proof.
 Qed.
 
 Lemma full_property_false : ~ full_property.
-Proof. intro H. exact (empty_document_refutes (H _ _)). Qed.
+Proof. intro H. exact (cyclic_value_refutes (H _ _)). Qed.
 
-(* [benign] excludes exactly the refuting classes: dropping any one of its three
-   conditions lets one of the witnesses above through. *)
-Lemma benign_conditions_needed :
-  (forallb call_acyclic [CallDecode [] 0 (fun _ => false)] = true /\
-   forallb call_supported [CallDecode [] 0 (fun _ => false)] = true) /\
-  (forallb (call_nonempty_for MarshalToCBEDocument) [CallMarshal cyclic_value] = true /\
-   forallb call_supported [CallMarshal cyclic_value] = true) /\
-  (forallb (call_nonempty_for CBEMarshaler_Marshal) [CallMarshal unsupported_value; CallMarshal unsupported_value] = true /\
-   forallb call_acyclic [CallMarshal unsupported_value; CallMarshal unsupported_value] = true).
+(* The repaired witnesses now return errors. *)
+Lemma repaired_witnesses :
+  run CEDecoder_DecodeDocument [CallDecode [] 0 (fun _ => false)] = [Err]
+  /\ run CBEMarshaler_Marshal [CallMarshal unsupported_value; CallMarshal unsupported_value] = [Err; Err]
+  /\ run CBEUnmarshaler_Unmarshal
+        [CallUnmarshal [129] 3 7 false (fun _ => {| d_trace := [SVal]; d_fails := false |});
+         CallUnmarshal [129] 3 7 false (fun _ => {| d_trace := [SVal]; d_fails := false |});
+         CallUnmarshal [129] 3 8 true (fun _ => {| d_trace := [SVal]; d_fails := false |})] = [Err; Err; Ok tt].
 Proof. vm_compute. repeat split. Qed.
+
+(* Non-vacuity of [benign]: failing documents inside an edge / at a node value, unsupported
+   types, reuse of the object. *)
+Lemma benign_example :
+  benign [CallUnmarshal [129] 3 1 true (fun _ => {| d_trace := [SList; SEdge; SVal]; d_fails := true |});
+          CallUnmarshal [129] 3 2 false (fun _ => {| d_trace := [SNode]; d_fails := true |});
+          CallUnmarshal [129] 3 2 false (fun _ => {| d_trace := [SVal]; d_fails := false |});
+          CallMarshal unsupported_value; CallMarshal unsupported_value; CallDecode [] 0 (fun _ => false)].
+Proof. reflexivity. Qed.
